@@ -123,6 +123,11 @@ func ruleFuncValuesOfCorrectType(observers *Events, addError AddErrFunc, disable
 			}
 
 		case ast.ObjectValue:
+			if value.Definition.Kind != ast.InputObject {
+				// an input object literal for a scalar or an enum, even the empty one
+				unexpectedTypeMessage(addError, value)
+				return
+			}
 
 			for _, field := range value.Definition.Fields {
 				if field.Type.NonNull {
